@@ -38,6 +38,10 @@ func c14Instant(s string) (time.Duration, bool) {
 	case "h":
 		return c14D / 2, true
 	}
+	if strings.HasSuffix(s, "q") { // k*d + d/4: inside the window in which send k+1 is stuck
+		k, _ := strconv.Atoi(s[:len(s)-1])
+		return time.Duration(k)*c14D + c14D/4, true
+	}
 	k, _ := strconv.Atoi(s[:len(s)-1])
 	if strings.HasSuffix(s, "-") {
 		return time.Duration(k)*c14D - time.Nanosecond, true
@@ -148,6 +152,14 @@ func runC14Query(t *testing.T, c explore.Case) (res explore.Result) {
 			i, _ := strconv.Atoi(w)
 			y.Conn.FailSend = map[int]error{i: errors.New("scripted send error")}
 		}
+		// B=<k>: the k-th socket write is stuck for half a resend interval
+		blocked := 0
+		var unblock chan struct{}
+		if b := p["B"]; b != "" && b != "none" {
+			blocked, _ = strconv.Atoi(b)
+			unblock = make(chan struct{})
+			y.Conn.BlockSend = map[int]chan struct{}{blocked: unblock}
+		}
 		peer := sim.UDP4(61, 1, 1, 1, 6111)
 		ctx, cancel := context.WithCancel(context.Background())
 		defer cancel()
@@ -178,6 +190,9 @@ func runC14Query(t *testing.T, c explore.Case) (res explore.Result) {
 				evs = append(evs, ev{d, k})
 			}
 		}
+		if blocked > 0 {
+			evs = append(evs, ev{time.Duration(blocked-1)*c14D + c14D/2, "U"})
+		}
 		sort.SliceStable(evs, func(i, j int) bool { return evs[i].at < evs[j].at })
 		closed := false
 		replied := time.Duration(-1)
@@ -207,6 +222,8 @@ func runC14Query(t *testing.T, c explore.Case) (res explore.Result) {
 			}
 			synctest.Wait()
 			switch e.kind {
+			case "U":
+				close(unblock)
 			case "C":
 				cancel()
 			case "S":
@@ -275,7 +292,7 @@ func runC14Query(t *testing.T, c explore.Case) (res explore.Result) {
 			res.Viol = fmt.Sprintf("writes-count: result reports %d writes, the socket saw %d", int(qr.Writes), sends)
 			return
 		}
-		if !limEmpty {
+		if !limEmpty && blocked == 0 {
 			// expected cause: the earliest decisive instant (ties accept either)
 			inf := time.Duration(1 << 62)
 			cand := map[string]time.Duration{"timeout": time.Duration(n) * c14D}
@@ -546,7 +563,7 @@ func init() { runners["C14"] = runC14 }
 func TestC14(t *testing.T) {
 	w := explore.NewWorker("C14")
 	defer w.Finish()
-	w.SetRule("fault/timing grid on the virtual clock (resend delay 1 s): one Query with NumTries 1..3 x reply instant x ctx-cancel instant x Close instant (each in {never, right after the first send, d/2, k*d -/+ 1 ns}) x scripted socket write error on send i x rate-limit options with a full or an empty limiter; every API call (Ping, FindNode, GetPeers, Get, Put) and traversal (Bootstrap, BootstrapContext, AnnounceTraversal with and without announce and with Close / StopTraversing, getput.Get mutable/immutable, getput.Put) under 7 start conditions (no starting nodes, nil resolver, resolver error, one silent node, one answering node, 3-node network with a silent member, two nodes one silent) x stop instant (never, 0, 0.5 s, 2.5 s), failing starts repeated 3 times in one server; oracle: the call returns, with the cause whose decisive instant comes first, at most NumTries datagrams, no pending transaction, no goroutine with a frame in the module besides the serve loop, and after Close a new query fails without writing")
+	w.SetRule("fault/timing grid on the virtual clock (resend delay 1 s): one Query with NumTries 1..3 x reply instant x ctx-cancel instant x Close instant (each in {never, right after the first send, d/2, k*d -/+ 1 ns}) x scripted socket write error on send i x a socket write stuck for half an interval (with reply / cancel / Close inside that window) x rate-limit options with a full or an empty limiter; every API call (Ping, FindNode, GetPeers, Get, Put) and traversal (Bootstrap, BootstrapContext, AnnounceTraversal with and without announce and with Close / StopTraversing, getput.Get mutable/immutable, getput.Put) under 7 start conditions (no starting nodes, nil resolver, resolver error, one silent node, one answering node, 3-node network with a silent member, two nodes one silent) x stop instant (never, 0, 0.5 s, 2.5 s), failing starts repeated 3 times in one server; oracle: the call returns, with the cause whose decisive instant comes first, at most NumTries datagrams, no pending transaction, no goroutine with a frame in the module besides the serve loop, and after Close a new query fails without writing")
 	idx := 0
 	run := func(unit string, h []string) {
 		i := idx
@@ -583,6 +600,21 @@ func TestC14(t *testing.T) {
 							continue // quick: at most two of the three disturbances together with a write error
 						}
 						run("query", []string{"n=" + strconv.Itoa(n), "R=" + R, "C=" + C, "S=" + S, "W=" + W, "rl=default", "lim=inf"})
+					}
+				}
+			}
+		}
+		// a socket write that is stuck while the caller cancels / the reply arrives / the server closes
+		for b := 1; b <= n; b++ {
+			inside := fmt.Sprintf("%dq", b-1)
+			gridB := append(append([]string(nil), grid...), inside)
+			for _, R := range gridB {
+				for _, C := range gridB {
+					for _, S := range []string{"never", inside} {
+						if R != inside && C != inside && S != inside {
+							continue
+						}
+						run("query", []string{"n=" + strconv.Itoa(n), "R=" + R, "C=" + C, "S=" + S, "W=none", "rl=default", "lim=inf", "B=" + strconv.Itoa(b)})
 					}
 				}
 			}
